@@ -172,6 +172,33 @@ def malformed(r):
             r.disagree("stats-malformed", dict(what=nm), got, rep)
 
 
+def strides_stream(r, n):
+    """the numba function `_strides` itself against the loop program translated from its source
+    (Gen.Zonal.stridesProg, run by the interpreter of Model/ZonalLoop.lean) and against the model's `strides`"""
+    from xrspatial.zonal import _strides
+    cases, lines = [], []
+    for _ in range(n):
+        rng = r.rng
+        pool = rng.choice([[0, 1, 2, 3, 4], [-3, -1, 0, 2, 5], [0.5, 1.5, 2.25, -0.75, 3]])
+        m = rng.randint(0, 12)
+        fz = sorted(rng.choice(pool) for _ in range(m)) if rng.random() < 0.8 else [rng.choice(pool) for _ in range(m)]
+        uz = sorted(set(rng.sample(pool, rng.randint(0, len(pool))))) if rng.random() < 0.8 else \
+            [rng.choice(pool) for _ in range(rng.randint(0, 5))]           # also unsorted / repeated: the pointer semantics
+        dt = rng.choice(["float64", "float32", "int64"]) if all(float(x) == int(x) for x in fz + uz) else "float64"
+        cases.append((fz, uz, dt))
+        lines.append("zstrides fz=" + (",".join(tok(float(x)) for x in fz) or "-") + " uz=" + (",".join(tok(float(x)) for x in uz) or "-"))
+    reps = Driver().ask(lines)
+    for (fz, uz, dt), rep in zip(cases, reps):
+        key = dict(kind="strides", fz=[tok(float(x)) for x in fz], uz=[tok(float(x)) for x in uz], dtype=dt)
+        r.case(key, nontrivial=len(fz) > 0 and len(uz) > 0, tags=["stream:strides-program", f"dtype:{dt}"])
+        real = [int(x) for x in _strides(np.array(fz, dtype=dt), np.array(uz, dtype=dt)).tolist()]
+        kv = Z.parse_kv(rep) if "=" in rep else {}
+        prog = [int(x) for x in Z.nums(kv.get("prog", "-"), int)] if kv else None
+        model = [int(x) for x in Z.nums(kv.get("model", "-"), int)] if kv else None
+        if kv.get("ok") != "1" or prog != real or model != real:
+            r.disagree("strides-program", key, f"_strides returned {real}", rep[:200])
+
+
 def corpus_cases(r):
     out = []
     for body in r.corpus():
@@ -215,6 +242,7 @@ def run(r, scale=1):
         c["stats"] = ["count", "sum"] + r.rng.sample(["mean", "max", "min", "var", "std"], 1 if r.tier == "quick" else 5)
         check_scale(r, c)
     compare_with_model(r, pending)
+    strides_stream(r, 60 if r.tier == "quick" else 600)
     malformed(r)
 
 
